@@ -3,7 +3,7 @@
 From Coq Require Import List.
 From Scan Require Import ScanModel.
 Import ListNotations.
-Definition gen_scan_facts : scan_facts := mkScanFacts true true true true false true PhStepGrid TcWithStart PtcJoined DupRefuse.
+Definition gen_scan_facts : scan_facts := mkScanFacts true true true true true true PhStepGrid TcWithStart PtcJoined DupRefuse.
 Definition gen_entry_points : list entry_point :=
   [ mkEP ScanSteadyState WkSteadyState CList ParByFlag false Y0IntoModel true;
     mkEP ScanTimeCourse WkTimeCourse CDict ParByFlag true Y0IntoModel false;
@@ -14,3 +14,5 @@ Definition gen_entry_points : list entry_point :=
     mkEP McProtocol WkProtocol CDict ParMaxWorkers true Y0IntoModel false;
     mkEP McProtocolTimeCourse WkProtocolTimeCourse CDict ParMaxWorkers true Y0IntoModel false;
     mkEP McScanSteadyState WkParameterScan CDictOfScans ParMaxWorkers true Y0IntoModel false ].
+Definition gen_view_policy : view_policy := ViewRestores.
+Definition gen_row_update : row_update := RowInvalidatesPerItem.
